@@ -9,3 +9,13 @@
 ; output size in bytes of a hash.Hash value (by interface identity)
 (declare-fun hsize (Int) Int)
 (assert (forall ((h Int)) (! (and (>= (hsize h) 1) (<= (hsize h) 1048576)) :pattern ((hsize h)))))
+; spec modexp (Int Int Int) Int
+; x^y mod m (uninterpreted: only its identity matters to the contracts that use it)
+(declare-fun modexp (Int Int Int) Int)
+; spec curvep (Int) Int
+; the field prime of an elliptic.Curve value (by interface identity)
+(declare-fun curvep (Int) Int)
+(assert (forall ((c Int)) (! (> (curvep c) 3) :pattern ((curvep c)))))
+; spec oncurve (Int Int Int) Bool
+; elliptic.Curve.IsOnCurve as a relation on mathematical integers
+(declare-fun oncurve (Int Int Int) Bool)
